@@ -159,3 +159,54 @@ Example machine_instance :
                    (fun p s => if p <? 10 then Some (fst s + p, snd s) else None)
                    (fun p s => (fst s - p, snd s)) (5, false) [1; 20; 3] = (5, false).
 Proof. vm_compute. reflexivity. Qed.
+
+(** ** filter order = block execution order *)
+Section O.
+  Variable S P : Type.
+  Variable exec : P -> S -> option S.
+  Variable pre : P -> list P -> bool.
+
+  Lemma exec_all_app a b s :
+    exec_all S P exec (a ++ b) s = match exec_all S P exec a s with Some s' => exec_all S P exec b s' | None => None end.
+  Proof.
+    revert s. induction a as [|p r IH]; intro s; cbn [app exec_all]; [reflexivity|].
+    destruct (exec p s); [apply IH | reflexivity].
+  Qed.
+
+  Lemma stage_exec ps s prev :
+    exec_all S P exec (rev (snd (stage S P exec pre ps s prev))) s = Some (fst (stage S P exec pre ps s prev)).
+  Proof.
+    unfold stage. destruct (filter_apply_exec S P exec (fun p ap => pre p (ap ++ prev)) ps s []) as (mid & A & B).
+    rewrite A, app_nil_r. exact B.
+  Qed.
+
+  (** the kept lists of a three-stage filter, executed in the order they were filtered in, reach the filter's state *)
+  Lemma filter3_exec l1 l2 l3 s :
+    let '(s3, k1, k2, k3) := filter3 S P exec pre l1 l2 l3 s in
+    exec_all S P exec (k1 ++ k2 ++ k3) s = Some s3.
+  Proof.
+    unfold filter3.
+    pose proof (stage_exec l1 s []) as H1. destruct (stage S P exec pre l1 s []) as [s1 m1]. cbn [fst snd] in H1.
+    pose proof (stage_exec l2 s1 m1) as H2. destruct (stage S P exec pre l2 s1 m1) as [s2 m2]. cbn [fst snd] in H2.
+    pose proof (stage_exec l3 s2 (m2 ++ m1)) as H3. destruct (stage S P exec pre l3 s2 (m2 ++ m1)) as [s3 m3]. cbn [fst snd] in H3.
+    rewrite exec_all_app, H1, exec_all_app, H2. exact H3.
+  Qed.
+
+  Lemma generated_applies_ordered_lemma ctx vtbs atvs s :
+    let '(s3, kc, kv, ka) := filter_as_coded S P exec pre ctx vtbs atvs s in
+    exec_body S P exec kc kv ka s = Some s3.
+  Proof. unfold filter_as_coded, exec_body. apply filter3_exec. Qed.
+End O.
+
+(** with another filter order the statement is false: ATVs applied before VTBs let a VTB through whose containing
+    block is known only as an ATV's block of proof; the block body (VTBs before ATVs) then fails *)
+Lemma generated_applies_other_order_refuted_lemma :
+  let '(s3, kc, kv, ka) := filter_atvs_first (list N) N om_exec (fun _ _ => true) [] [3] [1] [] in
+  kv = [3] /\ ka = [1] /\ exec_body (list N) N om_exec kc kv ka [] = None.
+Proof. vm_compute. repeat split; reflexivity. Qed.
+(** the same candidates filtered in the order of the code: the VTB is dropped and the body executes *)
+Example generated_applies_order_witness :
+  let '(s3, kc, kv, ka) := filter_as_coded (list N) N om_exec (fun _ _ => true) [] [3] [1] [] in
+  kv = [] /\ ka = [1] /\ exec_body (list N) N om_exec kc kv ka [] = Some s3.
+Proof. vm_compute. repeat split; reflexivity. Qed.
+
